@@ -855,14 +855,17 @@ class Class(Node):
 
     def __deepcopy__(self, memo):
         # Avoid copying the entire tree
-        if self.parent is not None and self.parent not in memo:
+        if self.parent is not None and id(self.parent) not in memo:
             memo[id(self.parent)] = self.parent
 
-        _deepcp = self.__deepcopy__
+        # Temporarily shadow this hook on the instance so that the default
+        # deepcopy machinery is used, then remove the shadow from both objects.
         self.__deepcopy__ = None
-        new = copy.deepcopy(self, memo)
-        self.__deepcopy__ = _deepcp
-        new.__deepcopy__ = _deepcp
+        try:
+            new = copy.deepcopy(self, memo)
+        finally:
+            del self.__deepcopy__
+        del new.__deepcopy__
         return new
 
     def __repr__(self):
